@@ -3,6 +3,7 @@ package mon
 import (
 	"fmt"
 	"math"
+	"math/big"
 
 	geom "github.com/twpayne/go-geom"
 	"github.com/twpayne/go-geom/xy"
@@ -20,8 +21,28 @@ type ipt struct{ x, y int64 }
 
 func icross(a, b, c ipt) int64 { return (b.x-a.x)*(c.y-a.y) - (b.y-a.y)*(c.x-a.x) }
 
+// icrossSign is the sign of icross, also when the products do not fit 64 bits.
+func icrossSign(a, b, c ipt) int {
+	const lim = 1 << 30
+	in := func(v int64) bool { return v > -lim && v < lim }
+	if in(b.x-a.x) && in(c.y-a.y) && in(b.y-a.y) && in(c.x-a.x) && in(a.x) && in(a.y) && in(b.x) && in(b.y) && in(c.x) && in(c.y) {
+		v := icross(a, b, c)
+		switch {
+		case v > 0:
+			return 1
+		case v < 0:
+			return -1
+		}
+		return 0
+	}
+	bi := func(v int64) *big.Int { return big.NewInt(v) }
+	l := new(big.Int).Mul(new(big.Int).Sub(bi(b.x), bi(a.x)), new(big.Int).Sub(bi(c.y), bi(a.y)))
+	r := new(big.Int).Mul(new(big.Int).Sub(bi(b.y), bi(a.y)), new(big.Int).Sub(bi(c.x), bi(a.x)))
+	return l.Cmp(r)
+}
+
 func ionseg(p, a, b ipt) bool {
-	if icross(a, b, p) != 0 {
+	if icrossSign(a, b, p) != 0 {
 		return false
 	}
 	return min64(a.x, b.x) <= p.x && p.x <= max64(a.x, b.x) && min64(a.y, b.y) <= p.y && p.y <= max64(a.y, b.y)
@@ -71,7 +92,7 @@ func iLocate(p ipt, ring []ipt) (loc location.Type, rayThroughVertex, horizOnRay
 		if lo.y > hi.y {
 			lo, hi = hi, lo
 		}
-		if icross(lo, hi, p) > 0 {
+		if icrossSign(lo, hi, p) > 0 {
 			crossings++
 		}
 	}
@@ -373,12 +394,15 @@ func c11HardEdges(c *fw.Ctx, idx int) {
 	fib := r.Chance(1, 3)
 	if fib {
 		f := []int64{1, 1}
-		for len(f) < 41 {
+		for len(f) < 79 {
 			f = append(f, f[len(f)-1]+f[len(f)-2])
 		}
 		k := r.Range(5, 40)
 		if r.Bool() {
 			k = r.Range(34, 40)
+		}
+		if r.Chance(1, 3) {
+			k = r.Range(41, 77) // ordinates up to 5.5e15: still exact doubles
 		}
 		d = ipt{f[k], f[k-1]}
 		if r.Bool() {
@@ -446,7 +470,7 @@ func c11HardEdges(c *fw.Ctx, idx int) {
 	}
 	if fib {
 		f := []int64{1, 1}
-		for len(f) < 41 {
+		for len(f) < 79 {
 			f = append(f, f[len(f)-1]+f[len(f)-2])
 		}
 		sx, sy := int64(1), int64(1)
@@ -456,7 +480,7 @@ func c11HardEdges(c *fw.Ctx, idx int) {
 		if d.y < 0 {
 			sy = -1
 		}
-		for k := 3; k < 40; k++ {
+		for k := 3; k < 78; k++ {
 			if f[k] == abs64(d.x) || f[k] == abs64(d.y) {
 				if abs64(d.x) > abs64(d.y) {
 					qs = append(qs, ipt{a.x + sx*f[k-1], a.y + sy*f[k-2]}, ipt{a.x + sx*f[k-2], a.y + sy*f[k-3]})
